@@ -73,30 +73,96 @@ func (c *skelChecker) funcByKey(key string) *types.Func {
 	return f
 }
 
-// callsRecoder lists the functions of package curve that call a digit recoder.
+// routines lists the scalar-multiplication routines of package curve: the
+// functions that perform group additions / doublings themselves and recode a
+// scalar, directly or through an unexported helper (at most two levels deep;
+// such a helper — one that only prepares digits or tables — is inlined into the
+// routine's skeleton, the routine itself stays a delegation target).
 func (c *skelChecker) routines() []*types.Func {
-	var out []*types.Func
+	info := c.kn.pk.TypesInfo
+	decls := map[*types.Func]*ast.FuncDecl{}
 	for _, f := range c.kn.pk.Syntax {
 		for _, d := range f.Decls {
-			fd, ok := d.(*ast.FuncDecl)
-			if !ok || fd.Body == nil {
-				continue
+			if fd, ok := d.(*ast.FuncDecl); ok && fd.Body != nil {
+				if fn, ok := info.Defs[fd.Name].(*types.Func); ok {
+					decls[fn] = fd
+				}
 			}
-			found := false
-			ast.Inspect(fd.Body, func(n ast.Node) bool {
-				if call, ok := n.(*ast.CallExpr); ok {
-					if sel, ok := unparen(call.Fun).(*ast.SelectorExpr); ok {
-						if fn, ok := c.kn.pk.TypesInfo.Uses[sel.Sel].(*types.Func); ok && c.kn.opClass(fn) == "recode" {
-							found = true
-						}
+		}
+	}
+	calleesOf := func(fd *ast.FuncDecl) []*types.Func {
+		var out []*types.Func
+		ast.Inspect(fd.Body, func(n ast.Node) bool {
+			if call, ok := n.(*ast.CallExpr); ok {
+				var id *ast.Ident
+				switch f := unparen(call.Fun).(type) {
+				case *ast.Ident:
+					id = f
+				case *ast.SelectorExpr:
+					id = f.Sel
+				}
+				if id != nil {
+					if fn, ok := info.Uses[id].(*types.Func); ok {
+						out = append(out, fn)
 					}
 				}
-				return !found
-			})
-			if found {
-				if fn, ok := c.kn.pk.TypesInfo.Defs[fd.Name].(*types.Func); ok {
-					out = append(out, fn)
+			}
+			return true
+		})
+		return out
+	}
+	hasClass := func(fd *ast.FuncDecl, classes ...string) bool {
+		for _, fn := range calleesOf(fd) {
+			cl := c.kn.opClass(fn)
+			for _, want := range classes {
+				if cl == want {
+					return true
 				}
+			}
+		}
+		return false
+	}
+	var recodes func(fd *ast.FuncDecl, depth int) bool
+	recodes = func(fd *ast.FuncDecl, depth int) bool {
+		if hasClass(fd, "recode") {
+			return true
+		}
+		if depth >= 2 {
+			return false
+		}
+		for _, fn := range calleesOf(fd) {
+			if hd := decls[fn]; hd != nil && hd != fd && !fn.Exported() && !hasClass(hd, "add", "sub", "D1", "Dk") && recodes(hd, depth+1) {
+				return true
+			}
+		}
+		return false
+	}
+	var out []*types.Func
+	for fn, fd := range decls {
+		direct := hasClass(fd, "recode")
+		ops := hasClass(fd, "add", "sub", "D1", "Dk")
+		// a function that recodes directly is a routine as before (also the
+		// degenerate ones without group operations of their own)
+		if (direct && (ops || fn.Exported())) || (ops && recodes(fd, 0)) {
+			out = append(out, fn)
+			continue
+		}
+		if direct && !ops {
+			// recodes but performs no group operation itself: a digit-preparing
+			// helper, unless nobody inlines it (then it keeps its own skeleton)
+			called := false
+			for _, other := range decls {
+				if other == fd {
+					continue
+				}
+				for _, g := range calleesOf(other) {
+					if g == fn {
+						called = true
+					}
+				}
+			}
+			if !called {
+				out = append(out, fn)
 			}
 		}
 	}
